@@ -16,6 +16,8 @@ const MEM: u64 = 1 << 26;
 #[derive(Default)]
 pub struct MemMonitor {
     before: Option<MemoryInstance>,
+    php0: u64,
+    stack_hwm: u128,
     pub refused_in_call: bool,
     pub callee_heap_write: bool,
     pub heap_cap: bool,
@@ -41,9 +43,11 @@ fn owned(regs: &[u64; 64], prev_hp: u64, a: u64) -> bool {
 }
 
 impl Monitor for MemMonitor {
-    fn before(&mut self, vm: &mut Vm, _pre: &Pre) {
+    fn before(&mut self, vm: &mut Vm, pre: &Pre) {
+        self.php0 = prev_hp(vm, &pre.regs);
         let m = vm.memory();
-        if m.heap_raw().len() > 256 * 1024 {
+        self.stack_hwm = m.stack_raw().len() as u128;
+        if m.heap_raw().len() > 256 * 1024 || m.stack_raw().len() > 256 * 1024 {
             // heap beyond the monitored bound: skip the diff of this step
             self.before = None;
             self.heap_cap = true;
@@ -53,28 +57,18 @@ impl Monitor for MemMonitor {
     }
 
     fn after(&mut self, vm: &mut Vm, info: &StepInfo, stats: &mut Stats) -> Option<Viol> {
-        let Some(m0) = self.before.take() else {
-            stats.inc("probe.unmodelled_mem_step_heap_cap");
-            return None;
-        };
         if info.errored {
+            self.before = None;
             return None;
         }
+        let m0 = self.before.take();
         let step = info.pre.step;
         let pre = &info.pre.regs;
         let post = &info.post;
         let op = info.op;
         let opn = op.map(|o| format!("{o:?}")).unwrap_or_else(|| "?".into());
-        let php0 = {
-            // caller's $hp is stored in the frame; the frame is untouched by the step unless it returned
-            let fp = pre[FP as usize];
-            if fp == 0 {
-                MEM
-            } else {
-                let off = fp + CallFrame::registers_offset() as u64 + (HP as u64) * 8;
-                m0.read(off, 8usize).ok().map(|b| u64::from_be_bytes(b.try_into().unwrap_or([0; 8]))).unwrap_or(MEM)
-            }
-        };
+        // caller's $hp as stored in the frame before the step
+        let php0 = self.php0;
         let php1 = prev_hp(vm, post);
         let m1 = vm.memory();
 
@@ -88,11 +82,18 @@ impl Monitor for MemMonitor {
                 O::LW => Some(vec![(r(d.b) + d.imm12 as u128 * 8, 8, false)]),
                 O::SB => Some(vec![(r(d.a) + d.imm12 as u128, 1, true)]),
                 O::SW => Some(vec![(r(d.a) + d.imm12 as u128 * 8, 8, true)]),
+                O::LQW => Some(vec![(r(d.b) + d.imm12 as u128 * 2, 2, false)]),
+                O::LHW => Some(vec![(r(d.b) + d.imm12 as u128 * 4, 4, false)]),
+                O::SQW => Some(vec![(r(d.a) + d.imm12 as u128 * 2, 2, true)]),
+                O::SHW => Some(vec![(r(d.a) + d.imm12 as u128 * 4, 4, true)]),
                 O::MCL => Some(vec![(r(d.a), r(d.b), true)]),
                 O::MCLI => Some(vec![(r(d.a), d.imm18 as u128, true)]),
                 O::MCP => Some(vec![(r(d.a), r(d.c), true), (r(d.b), r(d.c), false)]),
                 O::MCPI => Some(vec![(r(d.a), d.imm12 as u128, true), (r(d.b), d.imm12 as u128, false)]),
                 O::MEQ => Some(vec![(r(d.b), r(d.d), false), (r(d.c), r(d.d), false)]),
+                O::LOGD => Some(vec![(r(d.c), r(d.d), false)]),
+                O::RETD => Some(vec![(r(d.a), r(d.b), false)]),
+                O::S256 | O::K256 => Some(vec![(r(d.a), 32, true), (r(d.b), r(d.c), false)]),
                 _ => None,
             };
             let gas_operand = [d.a, d.b, d.c, d.d].iter().any(|x| *x == CGAS || *x == GGAS);
@@ -100,7 +101,7 @@ impl Monitor for MemMonitor {
                 stats.inc("probe.unmodelled_gas_register_operand");
             } else if let Some(acc) = accesses {
                 if acc.iter().all(|a| a.1 > 0) {
-                    let stack_hwm = m0.stack_raw().len() as u128;
+                    let stack_hwm = self.stack_hwm;
                     let hp = pre[HP as usize] as u128;
                     let mut allowed: Vec<P> = Vec::new();
                     for (addr, len, write) in &acc {
@@ -130,12 +131,12 @@ impl Monitor for MemMonitor {
                             allowed.push(P::MemoryWriteOverlap);
                         }
                     }
-                    if matches!(op, O::LB | O::LW | O::MEQ) && d.a < 16 {
+                    if matches!(op, O::LB | O::LW | O::LQW | O::LHW | O::MEQ) && d.a < 16 {
                         allowed.push(P::ReservedRegisterNotWritable);
                     }
                     let got = info.panic.filter(|_| info.own_panic).map(|p| p.0);
                     match got {
-                        Some(P::OutOfGas) => {}
+                        Some(P::OutOfGas) | Some(P::TooManyReceipts) => {}
                         Some(reason) => {
                             if !allowed.contains(&reason) {
                                 return Some((
@@ -166,6 +167,10 @@ impl Monitor for MemMonitor {
         }
 
         // ---- whole-memory diff ---------------------------------------------------------------
+        let Some(m0) = m0 else {
+            stats.inc("probe.unmodelled_mem_step_size_cap");
+            return None;
+        };
         let tx_start = vm.tx_offset() as u64;
         let tx_end = tx_start + vm.transaction().size() as u64;
         let bal_start = VM_MEMORY_BALANCES_OFFSET as u64;
